@@ -37,6 +37,10 @@ def make(kind):
     if kind == 'Mapped:KL':
         # inner geometry whose fun2par is linear but not affine-equivariant: the order  inner.fun2par(imap(f))  matters
         return MappedGeometry(KLExpansion(np.linspace(0, 1, 6), num_modes=3), map=lambda v: 2 * v + 1, imap=lambda f: (f - 1) / 2)
+    if kind == 'Mapped:boundary_values':
+        # a map that CHANGES THE SHAPE of the function values (appends a boundary value at both ends, also for batches of columns) with its inverse
+        pad = lambda v: np.concatenate([0 * v[:1] + 1, v, 0 * v[:1] - 1], axis=0)
+        return MappedGeometry(Continuous1D(3), map=pad, imap=lambda f: f[1:-1])
     if kind == 'Mapped:Image2D': return MappedGeometry(Image2D((2, 2)), map=lambda v: 3 * v, imap=lambda f: f / 3)
     if kind.startswith('Step'):
         _, proj, N, ns = kind.split(':')
@@ -280,7 +284,7 @@ def jobs(tier):
     J = []
     q = tier == 'quick'
     F = lambda *n: [f"{G}:{x}" for x in n]
-    kinds = ['Continuous1D', 'Continuous2D', 'Image2D:C', 'Image2D:F', 'Image2D:visual_only', 'Image2D:numpy_integer_shape', 'Continuous2D:numpy_integer_shape', 'Discrete', 'Mapped', 'Mapped:Image2D',
+    kinds = ['Continuous1D', 'Continuous2D', 'Image2D:C', 'Image2D:F', 'Image2D:visual_only', 'Image2D:numpy_integer_shape', 'Continuous2D:numpy_integer_shape', 'Discrete', 'Mapped', 'Mapped:Image2D', 'Mapped:boundary_values',
              'Step:mean:5:2', 'Step:max:6:3', 'Step:min:4:4', 'Default1D', 'Default2D']
     fn = {'Continuous1D': F('Continuous.fun2par', 'Geometry.par2fun'), 'Continuous2D': F('Continuous2D.par2fun', 'Continuous2D.fun2par'),
           'Image2D': F('Image2D.par2fun', 'Image2D.fun2par', 'Image2D._vector_to_image'), 'Discrete': F('Discrete.fun2par'),
